@@ -1280,7 +1280,7 @@ ExpressionEvaluator::evaluate_typed_expression_internal(const ASTNode *node) {
                 try {
                     int64_t value =
                         interpreter_.get_struct_member_array_element(
-                            obj_name, member_name, static_cast<int>(index));
+                            obj_name, member_name, Variable::index_to_int(index));
 
                     // 型情報を含めて返す
                     return consume_numeric_typed_value(node, value,
